@@ -10,7 +10,7 @@ namespace Bandit
 /-- a check that never names its own ID: the tester stamps `c.id` on every result -/
 def IsPlugin (c : Check) : Prop := ∀ e raw, c.run e = .ok (some raw) → raw.id = []
 
-theorem isPlugin_plugin (id name : String) (kinds : List Str) (f : Env → M (Option Raw)) :
+theorem isPlugin_plugin (id name : String) (kinds : List Str) (f : Env → M (Option PRaw)) :
     IsPlugin (Check.plugin id name kinds f) := by
   intro e raw h
   simp only [Check.plugin] at h
@@ -58,9 +58,11 @@ theorem runCheck_plugin_id {nm : NosecMap} {env : Env} {c : Check} (hp : IsPlugi
     | none => simp [hr] at he
     | some raw =>
       have hid := hp env raw hr
-      have hf : (fillId c raw).id = c.id := by simp [fillId, hid]
+      have hrid : (raw.resolve env.v).id = [] := by
+        unfold PRaw.resolve; cases raw.loc <;> simp [hid]
+      have hf : (fillId c (raw.resolve env.v)).id = c.id := by simp [fillId, hrid]
       simp only [hr] at he
-      cases hem : emit nm env.ctx (fillId c raw) with
+      cases hem : emit nm env.ctx (fillId c (raw.resolve env.v)) with
       | error x => simp [hem] at he; subst he; cases hi
       | ok ev =>
         simp only [hem, List.mem_singleton] at he
@@ -238,7 +240,7 @@ def NoMask (t : BlTables) (keep : Str → Bool) (e : Env) : Prop :=
       NoMaskCall (t.rulesFor e.node.kind) keep name) ∧
   NoMaskImport (t.rulesFor e.node.kind) keep (importFullNames e.node)
 
-def keepRaw (keep : Str → Bool) (o : Option Raw) : Option Raw :=
+def keepRaw (keep : Str → Bool) (o : Option PRaw) : Option PRaw :=
   o.bind (fun raw => if keep raw.id then some raw else none)
 
 theorem blacklistRun_restrict (t : BlTables) (keep : Str → Bool) (e : Env) (hk : KeysNodup t)
@@ -301,23 +303,25 @@ theorem runCheck_related {nm : NosecMap} {env : Env} {c c' : Check} (keep : Str 
     | none => simp [Except.map, keepRaw]
     | some raw =>
       have hne := hids raw hr
-      have hf : ∀ c0 : Check, fillId c0 raw = raw := fun c0 => by
-        unfold fillId; cases h : raw.id with
-        | nil => exact absurd h hne
+      have hrid : (raw.resolve env.v).id = raw.id := by
+        unfold PRaw.resolve; cases raw.loc <;> rfl
+      have hf : ∀ c0 : Check, fillId c0 (raw.resolve env.v) = raw.resolve env.v := fun c0 => by
+        unfold fillId; cases h : (raw.resolve env.v).id with
+        | nil => rw [hrid] at h; exact absurd h hne
         | cons a as => simp
       by_cases hk : keep raw.id = true
       · simp only [Except.map, keepRaw, Option.bind_some, hk, if_true, hf]
-        cases hem : emit nm env.ctx raw with
+        cases hem : emit nm env.ctx (raw.resolve env.v) with
         | error x => simp [hasId, keepEvent, eventId, hname]
         | ok ev =>
           have := emit_id hem
-          simp [hasId, keepEvent, this, hk]
+          simp [hasId, keepEvent, this, hrid, hk]
       · simp only [Except.map, keepRaw, Option.bind_some, hk, Bool.false_eq_true, if_false, hf]
-        cases hem : emit nm env.ctx raw with
+        cases hem : emit nm env.ctx (raw.resolve env.v) with
         | error x => simp [keepEvent, eventId]
         | ok ev =>
           have := emit_id hem
-          simp [keepEvent, this, hk]
+          simp [keepEvent, this, hrid, hk]
 
 /-- a check none of whose results is kept contributes nothing after filtering -/
 theorem runCheck_unkept {nm : NosecMap} {env : Env} {c : Check} (keep : Str → Bool)
@@ -331,19 +335,21 @@ theorem runCheck_unkept {nm : NosecMap} {env : Env} {c : Check} (keep : Str → 
     | none => simp
     | some raw =>
       obtain ⟨hne, hk⟩ := hids raw hr
-      have hf : fillId c raw = raw := by
-        unfold fillId; cases h : raw.id with
-        | nil => exact absurd h hne
+      have hrid : (raw.resolve env.v).id = raw.id := by
+        unfold PRaw.resolve; cases raw.loc <;> rfl
+      have hf : fillId c (raw.resolve env.v) = raw.resolve env.v := by
+        unfold fillId; cases h : (raw.resolve env.v).id with
+        | nil => rw [hrid] at h; exact absurd h hne
         | cons a as => simp
       simp only [hf]
-      cases hem : emit nm env.ctx raw with
+      cases hem : emit nm env.ctx (raw.resolve env.v) with
       | error x => simp [keepEvent, eventId]
       | ok ev =>
         have := emit_id hem
-        simp [keepEvent, this, hk]
+        simp [keepEvent, this, hrid, hk]
 
 /-- whatever the blacklist reports carries the ID of a rule of the node kind's table -/
-theorem blacklistRun_id_mem {t : BlTables} {e : Env} {raw : Raw} (h : blacklistRun t e = .ok (some raw)) :
+theorem blacklistRun_id_mem {t : BlTables} {e : Env} {raw : PRaw} (h : blacklistRun t e = .ok (some raw)) :
     ∃ r ∈ t.rulesFor e.node.kind, raw.id = r.id := by
   unfold blacklistRun at h
   by_cases hcall : e.node.isKind "Call" = true
